@@ -146,6 +146,9 @@ def judge(ctx, case, res):
             if gk in given and fam == 'hsl':
                 if not (-1e-9 <= obs[f] <= 100 + 1e-9 or near(obs[f], given[gk] * 100, 1e-4)):
                     ctx.violation('range|%s|neither-clamped-nor-as-given|written-as=%s' % (f, fam), case, detail)
+            elif fam == 'hsl' and gk in ('w', 'k'):
+                # whiteness and blackness of an hsl() colour are derived, never written: the stated range applies
+                rng_check(f, 0, 100)
             continue
         rng_check(f, 0, 100)
 
